@@ -310,6 +310,12 @@ SEED_EXPRS = [
     "analyze-string('a', 'a{99999999999}')", "matches('a', 'a{99999999999}')", "sum(true())", "sum((xs:untypedAtomic('abc'), 1))", "sum(xs:date('2020-01-01'))", "sum(xs:hexBinary('00'))",
     "codepoints-to-string(/*)", "string-join([1, abs#1], '')", "parse-json(concat(string-join(for $i in 1 to 3000 return '[', ''), string-join(for $i in 1 to 3000 return ']', '')))",
     "json-to-xml(concat(string-join(for $i in 1 to 3000 return '[', ''), string-join(for $i in 1 to 3000 return ']', '')))",
+    "xs:untypedAtomic('99999999999-01-01') = xs:date('2000-01-01')", "xs:date('2000-01-01') < xs:untypedAtomic('99999999999-01-01')", "xs:untypedAtomic('99999999999') = xs:gYear('2000')",
+    "xs:untypedAtomic('P99999999999999999999999999D') = xs:dayTimeDuration('P1D')", "xs:yearMonthDuration('P1Y') != xs:untypedAtomic('P99999999999999999999999999Y')",
+    "xs:untypedAtomic('1e999999') = 1", "xs:untypedAtomic('99999999999-01-01T00:00:00') > xs:dateTime('2000-01-01T00:00:00')", "xs:untypedAtomic('25:00:00') = xs:time('00:00:00')",
+    "map{xs:date('3000000-01-01'): 1}?*", "map:contains(map:entry(xs:dateTime('3000000-01-01T00:00:00'), 1), xs:dateTime('3000000-01-01T00:00:00'))",
+    "map:get(map:put(map{}, xs:date('-3000000-01-01'), 1), xs:date('-3000000-01-01'))", "distinct-values((xs:date('-3000000-01-01'), xs:date('-3000000-01-01')))",
+    "map:merge((map:entry(xs:gYear('99999999'), 1), map:entry(xs:gYear('99999999'), 2)))", "map{xs:time('00:00:00'): 1, xs:dayTimeDuration('P99999999999999D'): 2}?*",
     "1 => zz:f()", "'a' => xs:exp()", "1 => (", "lang('en', 1)", "xs:byte(127) + 1", "round(xs:byte(127), -1)", "-xs:byte(-128)", "abs(xs:byte(-128))", "xs:unsignedByte(255) * 2",
 ]
 
